@@ -53,6 +53,9 @@ void harness(void) {
   pre.opaque = SH_OPAQUE;
 #endif
   ASSUME(INV(&pre));
+#ifdef OP_EDIT
+#include "step_pre.h"
+#endif
 #ifdef PRE
   ASSUME(PRE);
 #endif
